@@ -65,7 +65,7 @@ PROPS = {
             "runs": [ctl("membership", 480, 30, 9000, 40, 12)], "modelled": CTL},
     "C04": {"lean": CTLMOD, "prefixes": ["c04_", "c18_consistent", "c09_start_fences_stale", "ctl_reachable_inv"],
             "runs": [ctl("reads", 480, 30, 9000, 40, 13)], "modelled": CTL},
-    "C05": {"lean": CTLMOD + ["JivaVerif.Properties.C02Hist"], "prefixes": ["c05_", "c02_failed_detached", "c02_in_service_holds_acked", "c18_removed_silent", "ctl_reachable_inv"],
+    "C05": {"lean": CTLMOD + ["JivaVerif.Properties.C02Hist", "JivaVerif.Properties.C10Cluster"], "prefixes": ["c05_", "c02_failed_detached", "c02_in_service_holds_acked", "c18_removed_silent", "ctl_reachable_inv"],
             "runs": [ctl("faults", 640, 30, 12000, 40, 14), dict(rep("rebuild", 160, 30, 1500, 40, 48), **{"thorough": {"n": 1500, "len": 40, "timeout": 6000}})], "modelled": CTL + [
                 "integration: in the replicadiff rebuild profile one of three real RW replicas is killed (REST endpoint 503, data connections cut) behind the real remote backend / RPC client / monitoring; the write that follows must be acknowledged, the dead replica must leave the controller's list, and the survivors' images stay equal (requests killq, cmp)",
                 "partial: that the detector fires (ping ticker, RPC deadline, TCP close) is runtime behaviour; the model takes 'the monitor fires' / 'the call returns an error' as events"]},
